@@ -8,3 +8,10 @@ import PyEcc.Gen.OptBn
 import PyEcc.Gen.RefBls
 import PyEcc.Gen.RefBn
 import PyEcc.Gen.Secp
+import PyEcc.Model.Hash
+import PyEcc.Model.Curve
+import PyEcc.Model.Pairing
+import PyEcc.Model.Swu
+import PyEcc.Model.Codec
+import PyEcc.Model.Bls
+import PyEcc.Model.Ecdsa
